@@ -432,8 +432,8 @@ def sym_rechunk(layout, target):
         is_in = sor(*[cut == b for b in bnds])
         free = sand(*[snot(sand(allt[r] < cut, cut < alle[r])) for r in range(nid)]) if nid else True
         prove(free, "rechunk:cut straddles a row")
-        far = sand(*[sor(alle[r] <= cut - 500, allt[r] >= cut + 500) for r in range(nid)]) if nid else True
-        prove(sor(is_in, far), "rechunk:new cut closer than 500 ns to a row")
+        in_gap = sand(*[sor(alle[r] <= cut, allt[r] >= cut) for r in range(nid)]) if nid else True
+        prove(sor(is_in, in_gap), "rechunk:new cut neither an input boundary nor in a row-free gap")
     return [ids_of(c) for c in out]
 
 
@@ -513,15 +513,14 @@ OBLIGATIONS = [
 MUTANTS = [
     dict(name="original F-C07: first gap never a candidate", file="strax/chunk.py", only="rechunk",
          old="        argmin = -1\n", new="        argmin = 0\n"),
-    dict(name="split_array allows a split at a touching row", file="strax/chunk.py", only="split",
-         old='        if d["time"] >= latest_end_seen:\n            splittable_i = i', new='        if d["time"] > latest_end_seen - 1:\n            splittable_i = i'),
+    dict(name="split_array refuses to split between touching rows", file="strax/chunk.py", only="split",
+         old='        if d["time"] >= latest_end_seen:\n            splittable_i = i', new='        if d["time"] > latest_end_seen:\n            splittable_i = i'),
     dict(name="concatenate accepts overlapping chunks", file="strax/chunk.py", only="concat",
          old="            if c.start < prev_end:", new="            if c.start < prev_end - 1:"),
-    dict(name="merge ignores differing ranges", file="strax/chunk.py", only="merge",
-         old="        if len(set(tranges)) != 1:", new="        if False:"),
-    dict(name="rechunker cuts at the row start instead of 500 ns before", file="strax/chunk.py", only="rechunk",
-         old='                t=chunk.data["time"][index] - int(DEFAULT_CHUNK_SPLIT_NS // 2),\n                allow_early_split=False,\n            )\n            chunks.append(_chunk)',
-         new='                t=chunk.data["time"][index],\n                allow_early_split=False,\n            )\n            chunks.append(_chunk)'),
+    dict(name="merge: first array wins on shared fields", file="strax/utils.py", only="merge",
+         old="    for arr in arrs:\n        for fn in arr.dtype.names:", new="    for arr in arrs[::-1]:\n        for fn in arr.dtype.names:"),
+    dict(name="gap indices point at the row before the gap", file="strax/chunk.py", only="rechunk",
+         old="        gap_indices = np.argwhere(strax.diff(data) > min_gap).flatten() + 1", new="        gap_indices = np.argwhere(strax.diff(data) > min_gap).flatten()"),
     dict(name="run spans of the right half keep the old start", file="strax/chunk.py", only="runs_split",
          old='            runs_second_chunk[run_id] = {"start": int(t), "end": run_start_end["end"]}',
          new='            runs_second_chunk[run_id] = {"start": run_start_end["start"], "end": run_start_end["end"]}'),
